@@ -335,6 +335,9 @@ func c19(p *an.Prog, r *an.R, tier string) {
 					}
 				}
 			}
+			if !ok && c19OnlyFinalizer(p, sp.Types, f) {
+				ok, why = true, "a function used only as the finalizer argument of runtime.SetFinalizer"
+			}
 			r.Check(ok, "C19.R3", fname+"/closes-shard", in.Pos(), "allowed: "+why, "a shard ("+recvT+") is closed directly in "+fname+": searches that still hold the old shard list read unmapped memory (the close must be left to the finalizer installed in replace)")
 		})
 	}
@@ -611,4 +614,41 @@ func c19Leaves(v ssa.Value, seen map[ssa.Value]bool) (string, token.Pos) {
 		}
 	}
 	return "", token.NoPos
+}
+
+// c19OnlyFinalizer: every use of the named function f in its package is as the finalizer argument of
+// runtime.SetFinalizer (a finalizer closure that was turned into a named function).
+func c19OnlyFinalizer(p *an.Prog, pkg *types.Package, f *ssa.Function) bool {
+	if f.Parent() != nil {
+		return false
+	}
+	uses, okAll := 0, true
+	for _, g := range p.SSAFuncs() {
+		if g.Pkg == nil || g.Pkg.Pkg != pkg {
+			continue
+		}
+		an.Instrs(g, func(b *ssa.BasicBlock, in ssa.Instruction) {
+			for _, op := range in.Operands(nil) {
+				if *op != ssa.Value(f) {
+					continue
+				}
+				uses++
+				mi, isMI := in.(*ssa.MakeInterface)
+				if !isMI || mi.Referrers() == nil {
+					okAll = false
+					continue
+				}
+				for _, ref := range *mi.Referrers() {
+					c, isCall := ref.(ssa.CallInstruction)
+					if _, isDbg := ref.(*ssa.DebugRef); isDbg {
+						continue
+					}
+					if !isCall || !an.IsPkgFunc(an.StaticCallee(c), "runtime", "SetFinalizer") || len(c.Common().Args) != 2 || c.Common().Args[1] != ssa.Value(mi) {
+						okAll = false
+					}
+				}
+			}
+		})
+	}
+	return uses > 0 && okAll
 }
